@@ -13,6 +13,34 @@ PENDING = "engine not built yet (see DESIGN.md §10); not claimed until it passe
 
 # id -> (engine, category, technique, text, note, design_ref)
 CHECKS = {
+ "C14": ("reposim", "exploration", "deterministic simulation: seeded baton scheduler over op-heads list/add/remove, lock and persist primitives; crash, ineffective-lock, I/O-error and clock-skew faults; invariants after every event",
+         "2-4 simulated jj processes (publishers, reconcilers/readers, stale starts at older operations) run the real load_at_head / resolve_op_heads / merge_operations / Transaction::write+publish on a tmpfs repository; the seeded scheduler owns every interleaving at the store's read/add/remove steps, lock grants (working or ineffective), crashes between any two steps and injected ENOSPC. After EVERY event the harness lists heads/ and checks: at least one head; every operation ever listed as a head is an ancestor of a current head; every reachable operation is readable. At quiescence a fresh load must succeed and leave exactly one head descending from all published operations. Sampling of schedules, not proof.",
+         "Trusts: readdir/create/unlink/rename atomic; hooks sit inside the primitives; std HashMap order is owned by the harness through the getrandom seam (determinism sweep: tools/determinism.sh).",
+         "§3.1, §4 C14"),
+ "C13": ("reposim", "exploration", "deterministic simulation of concurrent transactions + intent model: seeded schedules, crashes, stale starts; history check at quiescence",
+         "Same engine; 2-4 processes publish transactions with generated commit creations, rewrites, abandons, divergent rewrites, bookmark/tag/workspace edits from the same and from older operations (criss-cross arises naturally), reconciled by whoever loads next in every order the seed produces. Oracle at quiescence from the recorded intents: created changes visible; rewritten/abandoned commits hidden (except below recorded or reconcile-induced divergence); refs changed along one line of operations hold the last value; sibling concurrent changes are identical, conflicted with both sides, or a fast-forward - never a silent drop; no invented values.",
+         "Oracle is deliberately silent where jj's answer legitimately depends on merge order (targets abandoned/rewritten/rebased by another side, divergent changes); probes in the evidence count how often each rule applied.",
+         "§3.1, §4 C13"),
+ "C10": ("reposim", "exploration", "deterministic simulation; monitor on every view a simulated process loads or commits",
+         "Monitor over the same simulated histories: on every repository a process loads (including reconcile merges), commits, rebuilds, and on the final one, heads are pairwise non-ancestors, root is a head only alone, and every add-term of every local bookmark and every working-copy commit is an ancestor of a head - judged against the commit graph read straight from the backend.",
+         "The backend's commit objects are the ground truth for ancestry (C17 checks them separately).",
+         "§4 C10"),
+ "C11": ("reposim", "exploration", "deterministic simulation; monitor after each transaction's rebase_descendants with drawn options",
+         "After every generated transaction's rebase_descendants_with_options (all EmptyBehavior values, delete_abandoned_bookmarks, simplify_ancestor_merge; chains of rewrites, rewrite-then-abandon, divergent rewrites): no visible commit descends from a rewritten/abandoned one (outside recorded divergence), rebased commits keep change id and description and list their predecessor, no bookmark or working copy is left on a rewritten commit, no unrecorded duplicate change ids.",
+         "Transactions are built through the public MutableRepo API; two genuine defects found this way were repaired (known_findings.jsonl: fixed).",
+         "§4 C11"),
+ "C16": ("reposim", "exploration", "deterministic simulation; cross-process read-back monitor",
+         "Every operation and view any simulated process writes is read back from disk by other processes through fresh stores and must equal the written value field for field (conflicted/absent targets arise from concurrent merges). Only the storage/multi-process part of C16 is claimed; hashing of arbitrary values is a pure function and not decided here.",
+         "Values are those reachable by the generated workload (bookmarks, tags, workspaces, conflicted targets); no remote-bookmark fuzzing yet.",
+         "§4 C16"),
+ "C17": ("reposim", "exploration", "deterministic simulation; cross-process read-back monitor on simple and Git backends",
+         "Every commit written by any process is recorded exactly as write_commit returned it (sub-second and negative timestamps, odd tz offsets, unicode/empty names drawn by the workload) and re-read by every other process that loads a repo containing it through a fresh Store, on the simple backend and (half of the runs) the Git backend whose change ids live in the concurrently written extras table. One genuine defect (author sub-second timestamp) found and repaired.",
+         "Files/trees are read back only as part of tree reads; copy ids and signatures are not generated.",
+         "§4 C17"),
+ "C18": ("reposim", "exploration", "deterministic simulation; index-vs-graph monitor",
+         "On every repository any process loads (after write_index, reload from disk, merge of concurrent operations' indexes, forced rebuild) has_id for all visible commits, is_ancestor for all pairs, heads and common_ancestors of drawn subsets and change-id resolution are compared with the graph read from the backend (graphs up to 70 commits).",
+         "Generation numbers are not exposed by the Index trait and are not compared.",
+         "§4 C18"),
  "C21": ("tablesim", "exploration", "deterministic simulation: seeded baton scheduler over the table store's file-system primitives, crash and ineffective-lock faults, key/value reference model",
          "Seeded search over interleavings of 2-4 simulated processes (lock-less saves, locked saves, readers with reload) at the real TableStore's list/load/persist/add-head/remove-head/lock steps on tmpfs, with process crashes and ineffective locks; oracle is a map of completed saves (every completed save's entries present, later sequential save wins, heads never empty, reload does not change lookups). Sampling, not proof: the right level because the property quantifies over schedules the suite cannot control.",
          "Trusts: atomicity of readdir/create/unlink/rename as single steps; the hook points sit inside the primitives; HashMap order does not reach the event log (checked by the determinism sweep). Three known findings (known_findings.jsonl) are reported as KNOWN-FINDING and not as violations.",
@@ -20,6 +48,7 @@ CHECKS = {
 }
 
 ENGINES = {
+ "reposim": ("sim/src/engines/reposim.rs", "concurrent jj processes on one repository: baton scheduler at file-system primitives + crash / I/O error / lock / clock faults + model-based monitors"),
  "tablesim": ("sim/src/engines/tablesim.rs", "stacked tables under concurrent writers: baton scheduler + crash/lock faults"),
 }
 
